@@ -9,9 +9,14 @@
   in the reveal queue after that step; `c09_send_discloses_all`: the next data message carries the
   whole queue and empties it. Tied to the code by the `sched` profile, whose Go oracle recomputes all
   MAC keys of the discloser's window independently and tracks keys used to accept messages.
+  `akeHasFinished_carries_mac_keys` / `akeHasFinished_oldMACKeys` (repaired code): a key exchange that
+  completes while a session exists replaces the key-management context; the MAC keys of the session
+  that ends (its reveal queue and the keys of its MAC history) are carried into the reveal queue of
+  the new session, so the next data message discloses them.
 -/
 
 import Proofs.Keys
+import Proofs.ConvLife
 namespace Otr.C09
 open Otr
 
@@ -57,5 +62,10 @@ theorem derive_retired {K} (k : Keys) (i j : Nat) (h : i + 1 < k.ourKeyID ∨ j 
 theorem rotateOurKeys_fail_unchanged (K : Crypto) (k : Keys) (r : Nat) :
     k.rotateOurKeys K r none = (k, if r = k.ourKeyID then some .shortRandom else none) :=
   Otr.rotateOurKeys_fail_unchanged K k r
+
+theorem akeHasFinished_carries_mac_keys : type_of% @Otr.akeHasFinished_carries_mac_keys :=
+  @Otr.akeHasFinished_carries_mac_keys
+
+theorem akeHasFinished_oldMACKeys : type_of% @Otr.akeHasFinished_oldMACKeys := @Otr.akeHasFinished_oldMACKeys
 
 end Otr.C09
